@@ -109,12 +109,12 @@ def build_instr():
 def build_units(cfg, work, ov):
     shutil.copy(os.path.join(REPO, "go.mod"), os.path.join(work, "go.mod"))
     shutil.copy(os.path.join(REPO, "go.sum"), os.path.join(work, "go.sum"))
-    bins = []
-    for i, u in enumerate(cfg["units"]):
+    import concurrent.futures
+    bins = [None] * len(cfg["units"])
+
+    def build_one(i, u):
         out = os.path.join(work, "unit%d.test" % i)
         tags = "test verif"
-        if u.get("race"):
-            tags += " race"
         cmd = ["go", "test", "-c", "-tags", tags, "-overlay", ov, "-modfile", os.path.join(work, "go.mod"),
                "-vet=off", "-o", out]
         if u.get("race"):
@@ -122,13 +122,20 @@ def build_units(cfg, work, ov):
         cmd.append("./" + u["package"])
         t0 = time.time()
         r = subprocess.run(cmd, cwd=REPO, env=GOENV, capture_output=True, text=True)
-        if r.returncode != 0 or not os.path.exists(out):
-            log("BUILD-ERROR property=%s unit=%s" % (cfg["property"], u["package"]))
-            log(r.stdout[-6000:])
-            log(r.stderr[-6000:])
-            raise SystemExit(2)
-        bins.append(out)
-        log("built %s in %.1fs" % (u["package"], time.time() - t0))
+        return i, u, out, r, time.time() - t0
+
+    # units are built in parallel (a multi-unit check would otherwise pay every link step in sequence)
+    with concurrent.futures.ThreadPoolExecutor(max_workers=4) as ex:
+        futs = [ex.submit(build_one, i, u) for i, u in enumerate(cfg["units"])]
+        for f in futs:
+            i, u, out, r, dt = f.result()
+            if r.returncode != 0 or not os.path.exists(out):
+                log("BUILD-ERROR property=%s unit=%s" % (cfg["property"], u["package"]))
+                log(r.stdout[-6000:])
+                log(r.stderr[-6000:])
+                raise SystemExit(2)
+            bins[i] = out
+            log("built %s in %.1fs" % (u["package"], dt))
     return bins
 
 
